@@ -17,8 +17,8 @@ CLAIMED = {
             "DESIGN.md §5 C01, Appendix A"),
     "C02": (ENGINE_A, "exploration",
             "direct drive of the real Hamiltonian::leapfrog (hook H3) from a scripted momentum; every visited state (trajectory tap) compared with a dense-matrix reference",
-            "Sequences of single leapfrog steps of both signs for explicit diagonal / low-rank transformations (dimension 1..64, rank 0..d) and both kinetic energies: x = F(y)+mu for every state (inverse consistent with the forward map), gradient pull-back, documented log-determinant, energy, each step equals the textbook leapfrog in the original space for M^-1 = F F^T (ExactNormal: residual kick / rotation / kick), forward+backward returns the start, ExactNormal conserves the energy on a standard normal.",
-            "Weak fit for the family: the property is a pure function of its inputs except for the re-derivation of whitened coordinates after a transformation change (covered in adaptive chains by C03's next-trajectory oracle). Volume preservation and the O(eps^2) order are not measured (they follow from equality with the textbook map).",
+            "Sequences of single leapfrog steps of both signs for explicit diagonal / low-rank transformations (dimension 1..64, rank 0..d) and the three kinetic energies: x = F(y)+mu for every state (inverse consistent with the forward map), gradient pull-back, documented log-determinant, energy, each step equals the textbook leapfrog in the original space for M^-1 = F F^T (ExactNormal: residual kick / rotation / kick; Microcanonical: unit momentum, closed-form ESH half kick / drift sqrt(d) eps v / half kick for both signs, kinetic-energy change), forward+backward returns the start, ExactNormal conserves the energy on a standard normal.",
+            "Weak fit for the family: the property is a pure function of its inputs except for the re-derivation of whitened coordinates after a transformation change (covered in adaptive chains by C03's next-trajectory oracle). Volume preservation and the O(eps^2) order are not measured (they follow from equality with the textbook map). Microcanonical sequences with an ESH kick |delta| > 5 are skipped and counted (conditioning of the closed form for backward steps).",
             "DESIGN.md §5 C02"),
     "C03": (ENGINE_A, "exploration",
             "seeded simulation of single-chain histories with a record of every density evaluation and of every momentum draw (SimMath seam); per-draw membership and consistency oracle",
